@@ -264,10 +264,33 @@ def _scenario_clean_exit(make_worker):
     return out
 
 
+def _scenario_result_visible_after_join(make_worker):
+    """after join_tasks() returned the result of every finished task is in its return_dict, also if the worker thread is
+    slow exactly when it deposits the result (emulated by a return_dict with a slow __setitem__ in the worker thread)"""
+    import threading
+    import time
+    w = make_worker().__enter__()
+
+    class SlowDict(dict):
+
+        def __setitem__(self, key, val):
+            if threading.current_thread() is getattr(w, 'worker_thread', None):
+                time.sleep(0.3)
+            dict.__setitem__(self, key, val)
+
+    res = SlowDict()
+    w.put_task(lambda a, b: a + b, 2, 2, return_dict=res, return_key='2+2')
+    w.join_tasks()
+    out = [('result deposited when join_tasks returns', res.get('2+2'))]
+    w.__exit__(None, None, None)
+    return out
+
+
 SCENARIOS = [('fifo / exactly once / join completes all', _scenario_fifo),
              ('failing task surfaces as WorkerDied, no hang', _scenario_failing_task),
              ('failing task with queued tasks: WorkerDied, no hang', _scenario_failing_task_with_queue),
-             ('clean exit', _scenario_clean_exit)]
+             ('clean exit', _scenario_clean_exit),
+             ('join_tasks returns only after the results are deposited', _scenario_result_visible_after_join)]
 
 HANG = ('HANG', )
 
